@@ -78,7 +78,8 @@ def fault_entry(rng, kind, tab, used):
     """(stream id, module, test name, kwargs) of an entry that cannot run; None if not applicable."""
     sid = rng.choice(list(tab["cols"]))
     if kind == "unknown_module":
-        return sid, "nosuchmodule", "gross_range_test", {"fail_span": [0, 1]}
+        # dotted names: the import fails on the PARENT package first (e.name is then not the module that was asked for)
+        return sid, rng.choice(["nosuchmodule", "nosuchmodule", "qartod_v1.1", "contrib.x", "v2.qartod", "qartod.x"]), "gross_range_test", {"fail_span": [0, 1]}
     if kind == "unknown_test":
         return sid, "qartod", "no_such_test", {"x": 1}
     if kind == "bad_params":
